@@ -2,8 +2,8 @@
 # Re-check every Props/Cxx.vo (and everything it depends on) with the independent checker coqchk and list
 # the axioms.  Takes ~1-2 min and up to 4 GB per property; not part of the per-change checks.
 cd "$(dirname "$(readlink -f "$0")")/../coq" || exit 2
-for f in theories/Props/C*.v; do
-  p=$(basename "$f" .v)
+for f in theories/Props/C*.v theories/Ties/T*.v; do
+  p=$(basename "$f" .v); d=$(basename "$(dirname "$f")")
   echo "== $p"
-  timeout 1800 coqchk -silent -Q theories GV -o GV.Props.$p 2>&1 | sed -n '/^\* Axioms/,$p' | grep -v '^ *$'
+  timeout 1800 coqchk -silent -Q theories GV -o GV.$d.$p 2>&1 | sed -n '/^\* Axioms/,$p' | grep -v '^ *$'
 done
